@@ -173,6 +173,69 @@ def check_asm(rep, RC, mod):
     rep.analysed['dispatch_entry_points'] = n_ep
 
 
+INFLATE_USER = {'next_in': 'input cursor, set by the caller', 'avail_in': 'input size, set by the caller', 'next_out': 'output cursor, set by the caller',
+                'avail_out': 'output size, set by the caller', 'crc_flag': 'wrapper selection, set by the caller'}
+# one named field per entry with the reason the read cannot influence behaviour
+INFLATE_BENIGN = {'isal_inflate_stateless': {'count': 'isal_read_gzip_header copies state->count into a local before its switch; with block_state == ISAL_BLOCK_NEW_HDR (stored by isal_inflate_stateless just before) '
+                                                      'the first arm overwrites the local before any use'}}
+
+
+def check_upward_exposed(rep, mod):
+    """I-INIT: what can the behaviour of an entry point depend on?  FIELDINIT computes the bytes of the context an entry point
+    (with everything it calls, asm kernels and every dispatchable sibling included) may read before writing them."""
+    import fieldinit
+    R = rep.rule('I-INIT', 'inflate contexts: (a) isal_inflate_stateless, which is specified to need no initialisation call, reads before writing only the caller-set fields next_in/avail_in/next_out/avail_out/crc_flag; '
+                 '(b) every field isal_inflate may read before writing is assigned on every path by isal_inflate_init, and by isal_inflate_reset except the caller-set fields and hist_bits. '
+                 'Definite-assignment dataflow over bytes of struct inflate_state through the call graph; for the dispatched block decoder the union of reads / intersection of writes over the C and both asm implementations; '
+                 'accesses at non-constant offsets (Huffman lookup arrays, history buffer) are outside the analysis', floor=3, unit='(entry point, initialiser) pairs')
+    A = fieldinit.Analysis(mod)
+    notes = fieldinit.dispatch_ext(mod, A)
+    if 'decode_huffman_code_block_stateless' not in A.ext:
+        raise AnalysisBroken('I-INIT: no summary for the dispatched block decoder (%s)' % notes)
+    F = fieldinit.struct_fields('inflate_state')
+    if len(F) < 25:
+        raise AnalysisBroken('I-INIT: only %d fields of struct inflate_state recognised' % len(F))
+
+    def fields_in(lo, hi):
+        return [(n, o, sz) for n, o, sz in F if o < hi and lo < o + sz]
+    for fn in ('isal_inflate_stateless', 'isal_inflate', 'isal_inflate_init', 'isal_inflate_reset'):
+        if fn not in mod.funcs:
+            raise AnalysisBroken(fn + ' not found')
+    # (a)
+    R.instance()
+    UE, _, site = A.summary('isal_inflate_stateless')
+    nfield = 0
+    for lo, hi in UE.get(0, ()):
+        for n, o, sz in fields_in(lo, hi):
+            nfield += 1
+            ok = n in INFLATE_USER or n in INFLATE_BENIGN['isal_inflate_stateless']
+            R.check(ok, site.get((0, lo), 'igzip/igzip_inflate.c:isal_inflate_stateless'), 'isal_inflate_stateless may read state->%s before anything has written it (first read: %s): its result then depends on what a previous use left in the '
+                    'context, which the caller is not required to initialise' % (n, site.get((0, lo), '?')), key='I-INIT|stateless|%s' % n,
+                    sample='isal_inflate_stateless reads only caller-set fields before writing' if n == 'crc_flag' else None)
+    if nfield < 5:
+        raise AnalysisBroken('I-INIT: isal_inflate_stateless exposes only %d fields; next_in/avail_in/next_out/avail_out/crc_flag expected' % nfield)
+    # (b)
+    UE, _, site = A.summary('isal_inflate')
+    if sum(hi - lo for lo, hi in UE.get(0, ())) < 60:
+        raise AnalysisBroken('I-INIT: isal_inflate exposes implausibly few context bytes')
+    for init, allowed in (('isal_inflate_init', set()), ('isal_inflate_reset', set(INFLATE_USER) | {'hist_bits'})):
+        R.instance()
+        _, MW, _ = A.summary(init)
+        miss = []
+        for lo, hi in UE.get(0, ()):
+            for a, b in fieldinit.iv_minus(lo, hi, MW.get(0, ())):
+                for n, o, sz in fields_in(a, b):
+                    if n not in allowed:
+                        miss.append((n, site.get((0, lo), '?')))
+        for n, w in miss:
+            R.fail('igzip/igzip_inflate.c:%s' % init, 'isal_inflate may read state->%s before writing it (%s) but %s does not assign it on every path: a re-initialised context does not behave like a fresh one' % (n, w, init),
+                   key='I-INIT|%s|%s' % (init, n))
+        if not miss:
+            R.ok(len(fields_in(0, 1 << 30)), sample='%s assigns every field isal_inflate can read first%s' % (init, ' (except caller-set fields)' if allowed else ''))
+    for nt in notes + A.notes:
+        R.notes.append(nt)
+
+
 def check_init(rep, mod):
     """I-INIT / I-RESET on the three context structures"""
     R = rep.rule('I-RESET', 'isal_deflate_reset / isal_inflate_reset assign every field that the matching init assigns, except the documented user-set fields', floor=2, unit='context types')
@@ -250,5 +313,6 @@ def main(tier):
     RC = check_c(rep, mod)
     check_asm(rep, RC, mod)
     check_init(rep, mod)
+    check_upward_exposed(rep, mod)
     provenance.check_undef(rep, None, 'ALL', 130)
     return rep.finish()
